@@ -161,9 +161,10 @@ def _filter_is_positive(e):
     return False
 
 
-def _is_path_uuid(ctx, f, name):
+def _is_path_uuid(ctx, f, name, depth=0):
     """Every definition of name is util.wsgi_path_item(req.environ,
-    'consumer_uuid') or a normalisation of name itself."""
+    'consumer_uuid'), or a normalisation of name itself or of another local
+    that is the path uuid."""
     defs = [n for n in own_nodes(f.node) if isinstance(n, ast.Assign)
             and any(isinstance(t, ast.Name) and t.id == name
                     for t in n.targets)]
@@ -175,10 +176,21 @@ def _is_path_uuid(ctx, f, name):
                     v.args[1], ast.Constant) and \
                 v.args[1].value == 'consumer_uuid':
             base += 1
-        elif name in C.names_in(v):
             continue
-        else:
-            return False
+        used = C.names_in(v)
+        if name in used:
+            continue
+        # str(uuid.UUID(<other local that is the path uuid>))
+        loc = {x for x in used if any(
+            isinstance(n, ast.Assign) and any(
+                isinstance(t, ast.Name) and t.id == x for t in n.targets)
+            for n in own_nodes(f.node))}
+        if depth < 3 and len(loc) == 1 and not (
+                used & set(f.params)) and _is_path_uuid(
+                    ctx, f, next(iter(loc)), depth + 1):
+            base += 1
+            continue
+        return False
     return base >= 1
 
 
@@ -490,75 +502,56 @@ def run(ctx, R):
     r128(ctx, R)
 
 
-def flag_truthful(ctx, f, name, depth=0):
-    """(ok, why): every value ``name`` can take in f is False, True after a
-    Consumer.create() of this function that returned normally, or the
-    truthful flag of a callee (by position in its returned tuple)."""
+def flag_truthful(ctx, f, pos, depth=0):
+    """(ok, why): on every path through f that returns, element ``pos`` of
+    the returned tuple is False, or True on a path that passed a
+    Consumer.create() of this function (and is not in a handler around it),
+    or the truthful flag of a callee.  Decided per path with the values
+    propagated along it: a flag variable, literal returns per branch and a
+    flag handed up from a helper are the same thing."""
+    from psa import pathval
     if depth > 3:
         return False, 'recursion'
-    g = cfgmod.cfg_of(f)
-    defs = []
-    for n in own_nodes(f.node):
-        if isinstance(n, ast.Assign):
-            for t in n.targets:
-                if isinstance(t, ast.Name) and t.id == name:
-                    defs.append((n, n.value, None))
-                if isinstance(t, ast.Tuple):
-                    for i, e in enumerate(t.elts):
-                        if isinstance(e, ast.Name) and e.id == name:
-                            defs.append((n, n.value, i))
-        if isinstance(n, (ast.AugAssign, ast.AnnAssign)) and isinstance(
-                n.target, ast.Name) and n.target.id == name:
-            return False, 'augmented assignment of %s' % name
-    if not defs:
-        return False, 'no definition of %s' % name
     creates = [C.stmt_of(s_.node) for s_ in ctx.cg.calls_in(f)
                if any(c.qbase == CONS_CREATE for c in s_.callees)]
-    for st, v, pos in defs:
-        if pos is None and isinstance(v, ast.Constant) and v.value is False:
+    sites = {(s_.node.lineno, s_.node.col_offset): s_
+             for s_ in ctx.cg.calls_in(f)}
+    paths = [p for p in pathval.paths_of(f) if p.end == 'return']
+    if not paths:
+        return False, '%s returns nothing' % f.qbase
+    for p in paths:
+        ret = p.stmts[-1]
+        if not (isinstance(ret.value, ast.Tuple) and len(
+                ret.value.elts) > pos):
+            # a tuple built earlier and returned by name
+            whole = p.value_at(ret, ret.value)
+            if not (isinstance(whole, ast.Tuple) and len(whole.elts) > pos):
+                return False, 'line %d: %s does not return a tuple with a ' \
+                    'flag at position %d' % (ret.lineno, f.qbase, pos)
+            v = whole.elts[pos]
+        else:
+            v = p.value_at(ret, ret.value.elts[pos])
+        if isinstance(v, ast.Constant) and v.value is False:
             continue
-        if pos is None and isinstance(v, ast.Constant) and v.value is True:
-            ok = False
-            for cs in creates:
-                if not g.dominates(cs, st):
-                    continue
-                # not reachable from a handler of a try around the create
-                handlers = []
-                for t in C.enclosing_trys(cs, f.node):
-                    for h in t.handlers:
-                        handlers.extend(h.body[:1])
-                reach = g.reachable_from(handlers) if handlers else set()
-                if st not in reach:
-                    ok = True
-            if not ok:
-                return False, 'line %d sets %s = True without a ' \
-                    'Consumer.create() of this request having succeeded ' \
-                    'on every path to it' % (st.lineno, name)
+        if isinstance(v, ast.Constant) and v.value is True:
+            if not any(p.passed(cs) for cs in creates):
+                return False, 'line %d reports the consumer as created on ' \
+                    'a path without a Consumer.create() of this request ' \
+                    'having succeeded' % ret.lineno
             continue
-        if pos is not None and isinstance(v, ast.Call):
-            s_ = ctx.cg.site_of.get(v)
+        if isinstance(v, ast.Subscript) and isinstance(
+                v.slice, ast.Constant) and isinstance(v.value, ast.Call):
+            s_ = sites.get((v.value.lineno, v.value.col_offset))
             if s_ is None or len(s_.callees) != 1:
                 return False, 'line %d: flag from an unresolved call' % \
-                    st.lineno
-            callee = s_.callees[0]
-            names = set()
-            for r in own_nodes(callee.node):
-                if isinstance(r, ast.Return):
-                    if not (isinstance(r.value, ast.Tuple) and len(
-                            r.value.elts) > pos and isinstance(
-                                r.value.elts[pos], ast.Name)):
-                        return False, '%s does not return a flag name at ' \
-                            'position %d' % (callee.qbase, pos)
-                    names.add(r.value.elts[pos].id)
-            if not names:
-                return False, '%s returns nothing' % callee.qbase
-            for nm in sorted(names):
-                ok, why = flag_truthful(ctx, callee, nm, depth + 1)
-                if not ok:
-                    return False, '%s: %s' % (callee.qbase.split(':')[1],
-                                              why)
+                    ret.lineno
+            ok, why = flag_truthful(ctx, s_.callees[0], v.slice.value,
+                                    depth + 1)
+            if not ok:
+                return False, '%s: %s' % (
+                    s_.callees[0].qbase.split(':')[1], why)
             continue
-        return False, 'line %d: %s = %s' % (st.lineno, name, src(v)[:40])
+        return False, 'line %d: flag is %s' % (ret.lineno, src(v)[:40])
     return True, 'False, or True only after a successful create()'
 
 
@@ -566,18 +559,7 @@ def r128(ctx, R, rule='R12.8'):
     """The flag that licenses the removal of an auto-created consumer is
     true only when this request's Consumer.create() succeeded."""
     f = ctx.prog.func(ENSURE)
-    rets = [r for r in own_nodes(f.node) if isinstance(r, ast.Return)]
-    names = set()
-    shape = bool(rets)
-    for r in rets:
-        if isinstance(r.value, ast.Tuple) and len(r.value.elts) == 3 and \
-                isinstance(r.value.elts[1], ast.Name):
-            names.add(r.value.elts[1].id)
-        else:
-            shape = False
-    ok, why = False, 'ensure_consumer does not return (consumer, flag, attrs)'
-    if shape and len(names) == 1:
-        ok, why = flag_truthful(ctx, f, sorted(names)[0])
+    ok, why = flag_truthful(ctx, f, 1)
     R.ob(rule, 'ensure_consumer:created-flag-truthful', ok,
          'the created-new-consumer flag (which licenses deleting the '
          'consumer when the write fails) is true only after a '
